@@ -220,6 +220,48 @@ def size(e) -> int:
     return 1 + sum(size(x) for x in e[1:])
 
 
+def names(e, acc: set):
+    """every variable name occurring in e (references, binders, parameters)"""
+    if e is None or not isinstance(e, tuple):
+        return acc
+    k = e[0]
+    if k == 'var':
+        acc.add(e[1])
+    elif k in ('lit', 'named'):
+        pass
+    elif k == 'fn':
+        acc.update(e[2]); names(e[3], acc)
+    elif k in ('call', 'apply'):
+        names(e[1], acc)
+        for a in e[2]:
+            names(a, acc)
+    elif k in ('for', 'let'):
+        acc.add(e[1]); names(e[2], acc); names(e[3], acc)
+    else:
+        for x in e[1:]:
+            names(x, acc)
+    return acc
+
+
+def wellformed(e) -> bool:
+    """the parser rejects a `for` whose variable name occurs anywhere in its range expression
+    (XPST0008 'loop variable in its range expression', a static rule of the code outside C16)"""
+    if e is None or not isinstance(e, tuple):
+        return True
+    k = e[0]
+    if k in ('lit', 'var', 'named'):
+        return True
+    if k == 'for' and e[1] in names(e[2], set()):
+        return False
+    if k == 'fn':
+        return wellformed(e[3])
+    if k in ('call', 'apply'):
+        return wellformed(e[1]) and all(wellformed(a) for a in e[2])
+    if k in ('for', 'let'):
+        return wellformed(e[2]) and wellformed(e[3])
+    return all(wellformed(x) for x in e[1:])
+
+
 def kinds(e, acc: set):
     if e is None or not isinstance(e, tuple):
         return acc
@@ -340,7 +382,7 @@ class Gen:
         """a call of a function of type ft (arguments generated)"""
         f = fexpr if fexpr is not None else self.gen(ft, sc, d - 1)
         args = [self.gen(a, sc, d - 2) for a in ft[1]]
-        if self.noise and self.rng.random() < self.noise and args:
+        if self.noise and self.rng.random() < self.noise and args and not is_fun(ft[2]):
             self.tags.add('noise:arity')
             args = args[:-1] if self.rng.random() < 0.5 else args + [self.lit()]
         return ('call', f, args)
@@ -398,7 +440,7 @@ class Gen:
         _, args, ret = t
         k = r.random()
         if d > 0:
-            if k < 0.18 and len(args) < 3:
+            if k < 0.18 and 1 <= len(args) < 3:
                 # partial application of a function with more parameters
                 extra = r.choice([1, 1, 2])
                 pos = sorted(r.sample(range(len(args) + extra), extra))
@@ -451,10 +493,11 @@ class Gen:
         if k < 0.12:
             return ('cat', self.gen(r.choice([t, el]), sc, d - 1), self.gen(r.choice([t, el]), sc, d - 1))
         if k < 0.24:
-            x = self.fresh(sc)
             st = r.choice([IS, IS, S(F([I], I))]) if d > 2 else IS
             body_t = r.choice([t, el])
-            return ('for', x, self.gen(st, sc, d - 1), self.gen(body_t, self.bind(sc, x, st[1]), d - 1))
+            rng_e = self.gen(st, sc, d - 1)
+            x = self.fresh(sc, avoid=sorted(names(rng_e, set())))
+            return ('for', x, rng_e, self.gen(body_t, self.bind(sc, x, st[1]), d - 1))
         if k < 0.34:
             st = r.choice([IS, IS, S(F([I], I)), S(F([], I))]) if d > 2 else IS
             return ('smap', self.gen(st, sc, d - 1), self.gen(r.choice([t, el]), dict(sc, dot=st[1]), d - 1))
@@ -528,7 +571,7 @@ class Gen:
         else:
             makers = ('for', i, xs, ('let', self.fresh(sci), ('var', i), fexpr))
         fs = self.fresh(sc0)
-        scf = self.bind(sc0, fs, S(ft))
+        scf = self.bind(sc0, fs, S(ft), dot=None)
 
         def args():
             return [self.gen(I, scf, 1) for _ in range(arity)]
@@ -541,7 +584,7 @@ class Gen:
             if u < 0.3:
                 return ('smap', src, ('call', ('dot',), args()))
             if u < 0.5:
-                f = self.fresh(scf)
+                f = self.fresh(scf, avoid=[fs])
                 return ('for', f, src, ('call', ('var', f), [self.gen(I, self.bind(scf, f, ft), 1) for _ in range(arity)]))
             if u < 0.65:
                 f = self.fresh(scf)
@@ -562,7 +605,7 @@ class Gen:
                                      else ('fn', 0, [f, y], ('cat', ('call', ('var', f), a2), ('var', y)))))
             if u < 0.93 and arity >= 1:
                 # partial application of every item, then call
-                g = self.fresh(scf)
+                g = self.fresh(scf, avoid=[fs])
                 pa = [None] + [self.gen(I, scf, 1) for _ in range(arity - 1)]
                 r.shuffle(pa)
                 return ('smap', ('par', ('for', g, src, ('call', ('var', g), pa))), ('call', ('dot',), [self.gen(I, scf, 1)]))
@@ -602,6 +645,8 @@ class Gen:
         else:
             sc0 = {'vars': [], 'dot': I}
             e = self.gen(r.choice([IS, IS, I, IS, B]), sc0, d)
+        if not wellformed(e):
+            return self.program(quick)
         return renumber(e), sorted(self.tags)
 
 
@@ -877,6 +922,12 @@ def subterms(e):
             yield e[:i] + (b,) + e[i + 1:]
 
 
+def sig(d: Disagreement):
+    def k(v):
+        return v if isinstance(v, str) and v.startswith('ERR:') else 'value'
+    return k(d.impl), k(d.model), k(d.spec)
+
+
 def shrink(d: Disagreement) -> Disagreement:
     if not isinstance(d.case, dict) or 'program' not in d.case:
         return d
@@ -895,12 +946,15 @@ def shrink(d: Disagreement) -> Disagreement:
             budget -= 1
             if budget <= 0:
                 break
+            if not wellformed(cand):
+                continue
             try:
                 c = renumber(cand)
                 ds = compare(sub, cfg, [(c, [])], record=False)
             except Exception:
                 continue
-            ds = [x for x in ds if x.kind == d.kind and x.what == d.what and x.tags == d.tags]
+            ds = [x for x in ds if x.kind == d.kind and x.what == d.what and x.tags == d.tags
+                  and sig(x) == sig(d)]
             if ds and size(c) < size(best):
                 best, bd, improved = c, ds[0], True
                 break
